@@ -50,11 +50,15 @@ class World:
         for k in (121, 122, 123, 124):
             shutil.copy(os.path.join(self.d, "p.bin"), os.path.join(self.d, "n" * k))
         os.makedirs(os.path.join(self.d, "adir"))
+        try:
+            os.symlink("loop", os.path.join(self.d, "loop"))       # a symbolic link to itself: every access fails with ELOOP
+        except OSError:
+            pass
         self.n = 0
 
     def in_path(self, long, dflt, f):
         if isinstance(f, tuple):      # ("N", k): plain file whose name has exactly k characters; ("S", path): special file
-            return "n" * f[1] if f[0] == "N" else f[1]
+            return "n" * f[1] if f[0] == "N" else f[1]      # ("X", path): a path that cannot be opened for a reason other than 'no such file'
         name = {"M": "missing.bin", "P": "p.bin", "W1": "w1.wenc", "W2": "w2.wenc"}[f]
         if long:
             return os.path.join(self.longrel, name)
@@ -108,7 +112,7 @@ def gen_vectors(ck, w, count):
         if k in "edvVhnx":
             return k
         if k == "i":
-            return "i:%d:%d:%s" % (1 if t[1] else 0, 1 if t[2] else 0, "P" if isinstance(t[3], tuple) else t[3])
+            return "i:%d:%d:%s" % (1 if t[1] else 0, 1 if t[2] else 0, ("M" if t[3][0] == "X" else "P") if isinstance(t[3], tuple) else t[3])
         if k == "o":
             return "o:%d" % (1 if t[1] else 0)
         if k == "k":
@@ -163,6 +167,12 @@ def gen_vectors(ck, w, count):
     for a, b in (("V1", "I"), ("I", "V1"), ("V2", "V1"), ("V1", "V2")):
         base.append([("d",), ("i", False, True, "W1"), ("o", True), ("k", a), ("k", b)])
         base.append([("v",), ("i", False, True, "W1"), ("k", a), ("k", b)])
+    # inputs that cannot be opened for reasons other than 'no such file': a path component longer than NAME_MAX, a path longer
+    # than PATH_MAX, a symbolic link to itself, a file below a regular file: 'Could not open file', exit 1 - never a crash
+    for xp in ("c" * 300, "adir/" + "d" * 256, "./" * 2100 + "p.bin", "loop", "loop/x", "p.bin/x"):
+        base.append([("e",), ("i", False, True, ("X", xp)), ("o", True)])
+        base.append([("d",), ("i", False, True, ("X", xp)), ("o", True), ("k", "V1")])
+        base.append([("v",), ("k", "V1"), ("i", False, True, ("X", xp))])
     for toks in base:
         t2 = list(toks)
         res.append(t2)
@@ -308,7 +318,7 @@ def run(ck):
     mdrv = ck.model_driver()
     big = ck.tier == "thorough"
     w = World(ck, exe)
-    vecs = gen_vectors(ck, w, 1600 if big else 420)
+    vecs = gen_vectors(ck, w, 1700 if big else 520)
     model = wv.run_lines([mdrv], ["c%d cli %s" % (i, t) for i, (t, argv, toks) in enumerate(vecs)])
     # the option loop and the checks after it as the TRANSLATED SOURCE performs them (get_v_opt, parseOpts, parseModeNumber,
     # getArgsKey, check_ctype/htype, base64 under MiniC, in the environment CliConc.conc builds from the tokens) vs CliModel
@@ -393,7 +403,7 @@ def expected_success(toks):
     modes = [x[0] for x in toks if x[0] in "edvVh"]
     if len(modes) != 1:
         return False
-    if any(x[0] == "x" or (x[0] == "k" and x[1] == "I") or (x[0] == "o" and not x[1]) or (x[0] == "i" and x[3] == "M") for x in toks):
+    if any(x[0] == "x" or (x[0] == "k" and x[1] == "I") or (x[0] == "o" and not x[1]) or (x[0] == "i" and (x[3] == "M" or (isinstance(x[3], tuple) and x[3][0] == "X"))) for x in toks):
         return False
     if sum(1 for x in toks if x[0] == "c") > 1 or sum(1 for x in toks if x[0] == "m") > 1:
         return False
